@@ -7,12 +7,13 @@ THEOREMS = [
     "C03_network_pledge_nonneg", "C03_pledge_update_never_blocks_refuted",
     "C03_network_pledge_nonneg_only_by_rejection",
     "C03_never_blocks_without_creation_deposit", "C03_never_blocks_when_others_cover",
+    "C03_queued_termination_keeps_pledge", "C03_processed_termination_releases_pledge",
     "C03_rejected_call_changes_nothing", "C03_failed_cron_only_drops_claim",
 ]
 MODEL_TARGETS = ["Model/Collateral"]
 HARNESS = [
     {"bin": "collateral", "tag": "collateral",
-     "quick": {"cases": 48, "len": 30, "shards": 6},
+     "quick": {"cases": 40, "len": 30, "shards": 8},
      "thorough": {"cases": 1200, "len": 45, "shards": 48},
      "search": {"cases": 150, "len": 40}},
 ]
@@ -55,6 +56,11 @@ def extra_checks(root, work, stats, tier):
     """the scripted F1 witness must still be exercised, and the generator must reach the deep paths"""
     out = []
     for st in stats:
+        ex = st.get("extra") or {}
+        # a rejection that the model takes as an input (`ext`) must come before any pledge notification;
+        # otherwise the sends of that step were not compared
+        if ex.get("ext_after_notify", 0):
+            out.append(("correspondence", f"collateral: {ex['ext_after_notify']} miner invocations failed for a reason outside the model AFTER sending UpdatePledgeTotal"))
         oh = st.get("accepted", {})
         if tier == "thorough":
             for k in ("terminate", "cron_deadline", "provecommit", "withdraw", "apply_rewards", "report_fault"):
